@@ -1,2 +1,108 @@
-import Pakhi.Model.Interp
-import Pakhi.Model.Parser
+/-
+  C07 — garbage collection is invisible: it never frees or alters reachable data.
+
+  Heap level (full): for every heap — any sharing, cycles, list↔record nesting — and every set of
+  open scopes, a collection that completes leaves the content of every container reachable from a
+  variable in any open scope exactly as it was, keeps both arenas' sizes, and puts on the free
+  lists only slots that were already free or are unreachable; the marker marks a container if and
+  only if it is reachable (`mark_exact`), so nothing reachable is ever emptied or handed out again.
+  Program level: `gc_invisible` (output and end status independent of the collection schedule) is
+  decided by the C07 correspondence runs under forced schedules; its proof needs the evaluator to
+  be invariant under renaming of arena indices and is not closed yet (DESIGN.md §6).
+-/
+import Pakhi.Lemmas.Collect
+
+namespace Pakhi
+namespace C07
+
+/-- the marker marks exactly the reachable containers -/
+theorem mark_exact (h : Heap) (f : Nat) (roots : List Val) (m' : Marks)
+    (hx : markRoots h f roots (Marks.init h) = .ok m') (v : Val) :
+    isMarked m' v = true ↔ Reach h roots v := Pakhi.mark_exact h f roots m' hx v
+
+/-- a collection never changes a reachable container and never resizes the arenas -/
+theorem collect_preserves_reachable (scopes : List Scope) (h h' : Heap) (hc : collect scopes h = .ok h') :
+    h'.lists.length = h.lists.length ∧ h'.records.length = h.records.length ∧
+    (∀ i, Reach h (rootVals scopes) (.list i) → h'.lists[i]? = h.lists[i]?) ∧
+    (∀ i, Reach h (rootVals scopes) (.record i) → h'.records[i]? = h.records[i]?) := by
+  obtain ⟨m, _, rfl, hl, hr, hex⟩ := collect_unfold scopes h h' hc
+  have sl := sweepArena_spec ([] : List Val) m.lists 0 h.lists h.freeLists
+  have sr := sweepArena_spec ([] : RecordObj) m.records 0 h.records h.freeRecords
+  obtain ⟨e1, e2, e3, e4⟩ := sweep_lists h m
+  refine ⟨by simp [e1, sl.len], by simp [e3, sr.len], ?_, ?_⟩
+  · intro i hi
+    have hm := (isMarked_list_iff m i).mp ((hex _).mpr hi)
+    have := sl.kept i hm
+    simpa [e1] using this
+  · intro i hi
+    have hm := (isMarked_record_iff m i).mp ((hex _).mpr hi)
+    have := sr.kept i hm
+    simpa [e3] using this
+
+/-- the reachable part of the object graph is unchanged: a reachable container has the same children -/
+theorem collect_preserves_children (scopes : List Scope) (h h' : Heap) (hc : collect scopes h = .ok h')
+    (v : Val) (hv : Reach h (rootVals scopes) v) : children h' v = children h v := by
+  obtain ⟨_, _, hl, hr⟩ := collect_preserves_reachable scopes h h' hc
+  cases v with
+  | list i => simp [children, hl i hv]
+  | record i => simp [children, hr i hv]
+  | _ => rfl
+
+/-- only slots that were free before or are unreachable are on the free lists afterwards, so (given
+    that free slots were unreachable before) allocation never hands out a reachable slot -/
+theorem collect_frees_only_unreachable (scopes : List Scope) (h h' : Heap) (hc : collect scopes h = .ok h') :
+    (∀ j, j ∈ h'.freeLists → j ∈ h.freeLists ∨ ¬ Reach h (rootVals scopes) (.list j)) ∧
+    (∀ j, j ∈ h'.freeRecords → j ∈ h.freeRecords ∨ ¬ Reach h (rootVals scopes) (.record j)) := by
+  obtain ⟨m, _, rfl, hl, hr, hex⟩ := collect_unfold scopes h h' hc
+  have sl := sweepArena_spec ([] : List Val) m.lists 0 h.lists h.freeLists
+  have sr := sweepArena_spec ([] : RecordObj) m.records 0 h.records h.freeRecords
+  obtain ⟨e1, e2, e3, e4⟩ := sweep_lists h m
+  constructor
+  · intro j hj
+    rcases sl.sub j (by simpa [e2] using hj) with h1 | ⟨k, hk, rfl⟩
+    · exact Or.inl h1
+    · right; intro hreach
+      have := (isMarked_list_iff m (0 + k)).mp ((hex _).mpr hreach)
+      simp [hk] at this
+  · intro j hj
+    rcases sr.sub j (by simpa [e4] using hj) with h1 | ⟨k, hk, rfl⟩
+    · exact Or.inl h1
+    · right; intro hreach
+      have := (isMarked_record_iff m (0 + k)).mp ((hex _).mpr hreach)
+      simp [hk] at this
+
+/-- `FreeUnref` is re-established by every collection: afterwards no free slot is reachable -/
+theorem collect_free_unreachable (scopes : List Scope) (h h' : Heap) (hc : collect scopes h = .ok h')
+    (hfree : ∀ j, j ∈ h.freeLists → ¬ Reach h (rootVals scopes) (.list j)) :
+    ∀ j, j ∈ h'.freeLists → ¬ Reach h (rootVals scopes) (.list j) := by
+  intro j hj
+  rcases (collect_frees_only_unreachable scopes h h' hc).1 j hj with h1 | h1
+  · exact hfree j h1
+  · exact h1
+
+/-- the variables themselves are not touched: `collect` takes the scopes read-only -/
+theorem roots_are_all_scopes (scopes : List Scope) (n : Str) (v : Val) (sc : Scope)
+    (hs : sc ∈ scopes) (hv : assocGet sc n = some v) (hr : isRef v = true) : v ∈ rootVals scopes := by
+  have hmem : v ∈ scopes.flatMap (fun s => s.map (·.2)) := by
+    simp only [List.mem_flatMap, List.mem_map]
+    refine ⟨sc, hs, ?_⟩
+    clear hs
+    induction sc with
+    | nil => simp [assocGet] at hv
+    | cons p r ih =>
+      obtain ⟨k, x⟩ := p
+      simp only [assocGet] at hv
+      split at hv
+      · simp at hv; exact ⟨(k, x), by simp, hv⟩
+      · obtain ⟨q, hq, hq2⟩ := ih hv
+        exact ⟨q, List.mem_cons_of_mem _ hq, hq2⟩
+  cases v <;> simp_all [rootVals, isRef]
+
+/-- non-vacuity: a 2-cycle 0 ⇄ 1 reachable from `x`, plus garbage slot 2 pointing into it -/
+example : ∃ h', collect [[("x".toList, .list 0)]]
+      { lists := [[.list 1], [.list 0, .num 5], [.list 0]], freeLists := [], records := [], freeRecords := [], allocCount := 7 } = .ok h'
+    ∧ h'.lists = [[.list 1], [.list 0, .num 5], []] ∧ h'.freeLists = [2] := by
+  refine ⟨_, rfl, ?_, ?_⟩ <;> decide
+
+end C07
+end Pakhi
